@@ -223,9 +223,18 @@ def main(tier: str, seed: int) -> int:
     ch0 = Choices(seed=mix(seed, "C10", "corpus"))
     corpus_pick = corpus if n_corpus >= len(corpus) else \
         sorted(ch0.shuffle(corpus, "corpus_sample")[:n_corpus])
-    items = [[i, "gen", mix(seed, "C10", i), None] for i in range(n_gen)]
-    items += [[n_gen + j, "corpus", m, None] for j, m in enumerate(corpus_pick)]
-    batches = [items[s:s + per] for s in range(0, len(items), per)]
+    gen_items = [[i, "gen", mix(seed, "C10", i), None] for i in range(n_gen)]
+    cor_items = [[n_gen + j, "corpus", m, None] for j, m in enumerate(corpus_pick)]
+    items = gen_items + cor_items            # index -> item
+    # every batch mixes generated programs and corpus modules, so that a wall budget
+    # that stops exploration early still covers both
+    n_b = max(1, (len(items) + per - 1) // per)
+    batches = [[] for _ in range(n_b)]
+    for k, it in enumerate(gen_items):
+        batches[k % n_b].append(it)
+    for k, it in enumerate(cor_items):
+        batches[k % n_b].append(it)
+    batch_of = {it[0]: b for b in batches for it in b}
     pool = Pool(__name__, flavours, F.n_workers())
     harness: list[str] = []
     obs: dict[int, dict[str, dict]] = {}
@@ -286,8 +295,7 @@ def main(tier: str, seed: int) -> int:
             prefix, batch_replay = [], None
             if ra is None or rb is None or ra["digest"] == rb["digest"]:
                 # not reproducible alone: replay the byte-identical batch job
-                start = (idx // per) * per
-                batch_replay = items[start:start + per]
+                batch_replay = batch_of[idx]
                 ra, rb = observe_pair(pool, a, b, batch_replay, params, index=idx)
                 if ra is None or rb is None or ra["digest"] == rb["digest"]:
                     harness.append(f"disagreement on item {idx} under {c['name']} did not "
